@@ -83,7 +83,7 @@ impl<'a> Case<'a> {
     }
 }
 
-pub trait Prop: Sync {
+pub trait Prop: Send + Sync {
     fn id(&self) -> &'static str;
     /// how cases are generated and what makes one non-trivial / distinct
     fn rule(&self) -> String;
